@@ -1383,10 +1383,35 @@ def check_c08(pid, tier, build, props):
             fe["agree"] += 1
             fe["with_for"] += 1 if meta.get("fors") else 0
     fe_ok = fe["agree"] > 0 and fe["mismatch"] == 0
+    # the model WITH expressions (SrcE.v: handle_expression / handle_bool_op) on programs of every kind,
+    # and/or in any position included
+    from . import srcmodel_e
+    eitems = srcmodel_e.items_for(tier, common.seed())
+    eout, eerr = par.run(eitems, srcmodel_e.export_item)
+    fx = {"programs": len(eitems), "agree": 0, "skipped": {}, "with_and_or": 0, "mismatch": 0}
+    if eerr:
+        problems.append("front-end (expressions) correspondence driver: %r" % eerr[:1])
+    for item, meta, r in eout:
+        if meta and "harness_error" in meta:
+            problems.append("front-end (expressions) correspondence harness: %r" % (meta,))
+        elif meta and "skipped" in meta:
+            fx["skipped"][meta["skipped"]] = fx["skipped"].get(meta["skipped"], 0) + 1
+        elif (meta and "model_mismatch" in meta) or r != [1, 1, 1]:
+            fx["mismatch"] += 1
+            if fx["mismatch"] <= 2:
+                violations.append({"source": item, "witness": None,
+                                   "note": "graph built by the implementation differs from the model SrcE.build "
+                                           "(answers %r %s)" % (r, (meta or {}).get("model_mismatch", ""))})
+        else:
+            fx["agree"] += 1
+            fx["with_and_or"] += 1 if meta.get("boolops") else 0
+    fx_ok = fx["agree"] > 0 and fx["mismatch"] == 0
     coverage = {
-        "obligations": nth + 2,
-        "discharged": (nth if props["ok"] else 0) + (1 if n_prune and ok_prune == n_prune else 0) + (1 if fe_ok else 0),
+        "obligations": nth + 3,
+        "discharged": (nth if props["ok"] else 0) + (1 if n_prune and ok_prune == n_prune else 0) + (1 if fe_ok else 0)
+                      + (1 if fx_ok else 0),
         "front_end_model_correspondence": fe,
+        "front_end_model_with_expressions_correspondence": fx,
         "checker_cmd": "coqc Props/C08.v; build/extract/vchk (RunSrc.run_c08) on unpruned/pruned graphs; path-exhaustive "
                        "execution of source vs block-by-block interpretation of the graph",
         "trusted_base": TRUSTED + ["harness/vh/progs.py: program generator, oracle-driven executor and the block-by-block "
@@ -1415,12 +1440,17 @@ def check_c08(pid, tier, build, props):
                        "(C08_pruned_graph_means_source, via prune_keeps_meaning and build_tests_last). Tie: "
                        "Src.build(skeleton) = the transformer's unpruned graph and SrcPrune.sprune of it = the "
                        "transformer's pruned graph (and entry), block for block in dictionary order "
-                       "(front_end_model_correspondence). NOT proved: and/or operands, for-desugaring vs Python's for, divergence - "
+                       "(front_end_model_correspondence). The transformer's treatment of expressions is modelled too "
+                       "(SrcE.v: handle_expression / handle_bool_op; tie: SrcE.build = the transformer's unpruned graph "
+                       "on programs with and/or in every position, front_end_model_with_expressions_correspondence); "
+                       "on that model the full statement is FALSE and is refuted by kernel-evaluated witnesses "
+                       "(C08_nested_boolop_refuted, C08_expr_order_refuted) - replayed on the implementation these are "
+                       "the known findings K2 and K-expr. NOT proved: the positive statement for and/or operands, for-desugaring vs Python's for, divergence - "
                        "decided by path-exhaustive differential execution against CPython (exploration). Known findings (test suite pins the behaviour): nested and/or "
                        "operands are hoisted eagerly; a for target is initialised to None.",
     }
     return {"coverage": coverage, "violations": violations, "problems": problems, "level": "proof",
-            "wall_s": t.s(), "broken_name": "Props/C08.v / correspondence prune / correspondence Src.build = transformer (run_src) / "
+            "wall_s": t.s(), "broken_name": "Props/C08.v / correspondence prune / correspondence Src.build = transformer (run_src) / correspondence SrcE.build = transformer (run_srce) / "
                                             "path-exhaustive comparison"}
 
 
